@@ -6,7 +6,8 @@
    itself only ever sees [view_of] -- pid, start time, ppid, state -- never the incarnation. *)
 From PV Require Export Proc.Model.
 
-Record kproc := { kpid : Z; kinc : Z (* ghost *); kstart : Z; kppid : Z; kzomb : bool }.
+Record kproc := { kpid : Z; kinc : Z (* ghost *); kstart : Z; kppid : Z; kzomb : bool;
+                   kcomm : bytes (* name, may contain blanks and parentheses *); knthr : Z (* threads *) }.
 
 Record world := {
   table   : list kproc;            (* the process table: live processes and zombies *)
@@ -18,7 +19,8 @@ Record world := {
 }.
 
 Inductive kev :=
-| Spawn (pid start ppid : Z)       (* a new process gets [pid]; also PID reuse *)
+| Spawn (pid start ppid : Z) (comm : bytes)   (* a new process gets [pid]; also PID reuse; any name *)
+| SpawnThread (pid : Z)            (* the process starts one more thread *)
 | Exit (pid : Z)                   (* terminates, stays in the table as a zombie *)
 | Reap (pid : Z)                   (* leaves the table; the PID is free again *)
 | ClockStep (d : Z).               (* the system clock is stepped: published boot time changes *)
@@ -56,14 +58,22 @@ Definition has_obj (w : world) (o : nat) : bool :=
 
 (* ---------------------------------------------------------------- kernel events *)
 Definition set_zomb (k : kproc) : kproc :=
-  {| kpid := kpid k; kinc := kinc k; kstart := kstart k; kppid := kppid k; kzomb := true |}.
+  {| kpid := kpid k; kinc := kinc k; kstart := kstart k; kppid := kppid k; kzomb := true;
+     kcomm := kcomm k; knthr := knthr k |}.
+Definition add_thread (k : kproc) : kproc :=
+  {| kpid := kpid k; kinc := kinc k; kstart := kstart k; kppid := kppid k; kzomb := kzomb k;
+     kcomm := kcomm k; knthr := knthr k + 1 |}.
 
 Definition kstep (w : world) (k : kev) : world :=
   match k with
-  | Spawn p s pp =>
-    {| table := table w ++ [{| kpid := p; kinc := nextinc w; kstart := s; kppid := pp; kzomb := false |}];
+  | Spawn p s pp cm =>
+    {| table := table w ++ [{| kpid := p; kinc := nextinc w; kstart := s; kppid := pp; kzomb := false;
+                               kcomm := cm; knthr := 1 |}];
        hist := (nextinc w, p, s) :: hist w; nextinc := nextinc w + 1; btime := btime w;
        ms := ms w; ginc := ginc w |}
+  | SpawnThread p =>
+    {| table := map (fun k => if kpid k =? p then add_thread k else k) (table w);
+       hist := hist w; nextinc := nextinc w; btime := btime w; ms := ms w; ginc := ginc w |}
   | Exit p =>
     {| table := map (fun k => if kpid k =? p then set_zomb k else k) (table w);
        hist := hist w; nextinc := nextinc w; btime := btime w; ms := ms w; ginc := ginc w |}
@@ -79,7 +89,7 @@ Definition kstep (w : world) (k : kev) : world :=
    starts of one PID never carry the same start time (the assumption psutil documents) *)
 Definition wf_kev (w : world) (k : kev) : bool :=
   match k with
-  | Spawn p s pp =>
+  | Spawn p s pp _ =>
     (0 <=? p) && (p <? PID_MAX) && (0 <=? s)
     && match lookup (table w) p with None => true | Some _ => false end
     && forallb (fun e => match e with (_, p', s') => negb ((p' =? p) && (s' =? s)) end) (hist w)
@@ -134,6 +144,7 @@ Definition valid_args (p : Z) (s : setter) : bool :=
   | Ionice cls v =>
     let value := match v with Some n => n | None => 0 end in
     (0 <=? value) && (value <=? 7) && ((value =? 0) || negb ((cls =? 3) || (cls =? 0)))
+    && ((0 <=? cls) && (cls <=? 3))
   | Rlimit _ lims => negb (p =? 0) && (length lims =? 2)%nat
   | Affinity _ => true
   end.
